@@ -6,7 +6,7 @@ from ..httpx import HS
 from ..absint import Interp, RETURN, Domain, NORMAL
 from ..deps import DepDomain, fs
 from ..linear import linform, same, show
-from ..astutil import alpha, method_call, unparse, parent, in_subtree, is_self_call
+from ..astutil import alpha, method_call, unparse, parent, in_subtree, is_self_call, guard_atoms
 from ..index import dotted, walk_local
 
 EXPLANATION = ("C18: init/reset agreement of Responder: every attribute written while producing one response (start, "
@@ -181,10 +181,7 @@ def check(run):
         while p is not None and p is not f.node:
             if isinstance(p, ast.If):
                 pol = any(in_subtree(node, b) for b in p.body)
-                t = p.test
-                while isinstance(t, ast.UnaryOp) and isinstance(t.op, ast.Not):     # `not X` in the else side is X
-                    t, pol = t.operand, not pol
-                out.append(("" if pol else "not ") + unparse(alpha(t, ren)))
+                out += guard_atoms(p.test, pol, ren)
             cur, p = p, parent(p)
         return out
     for n in walk_local(reqs.node):
